@@ -100,7 +100,7 @@ KINDS = ["fifo", "hb_stopping", "hb_promotion", "hb_promotion_nomra", "hb_pasha"
 
 def run(kind, seed, n_workers, conf, criterion_kwargs, tuner_conf=None):
     """conf: simulator configuration in micro-seconds (see simbackend.make_backend)."""
-    SB.freeze_real_time()
+    clock = SB.freeze_real_time()
     np.random.seed(seed)
     be = SB.make_backend(conf) if "blackbox" not in conf else None
     from syne_tune.backend.simulator_backend.simulator_backend import SimulatorConfig
@@ -129,7 +129,19 @@ def run(kind, seed, n_workers, conf, criterion_kwargs, tuner_conf=None):
     o_pause, o_stop, o_stopall = be.pause_trial, be.stop_trial, be.stop_all
     in_stop_all = [False]
 
+    ncall = [0]
+
+    def outside():
+        """Real time passes outside the back-end (tuning loop and scheduler compute): 1 or 2 model ticks before every
+        third call of the back-end."""
+        ncall[0] += 1
+        if conf.get("outside", True) and ncall[0] % 3 == 1 and not in_stop_all[0]:
+            d = (1 + ncall[0] % 2) * SB.UNIT
+            clock.outside(d)
+            sim_ev.append({"a": "Outside", "d": d})
+
     def start_trial(config, checkpoint_trial_id=None):
+        outside()
         trial = o_start(config=config, checkpoint_trial_id=checkpoint_trial_id)
         t = trial.trial_id
         mode[t], runs[t], emitted[t] = "running", 1, 0
@@ -138,6 +150,7 @@ def run(kind, seed, n_workers, conf, criterion_kwargs, tuner_conf=None):
         return trial
 
     def resume_trial(trial_id, new_config=None):
+        outside()
         cfg = new_config if new_config is not None else be._trial_dict[trial_id].config
         tl_ev.append({"a": "Resume", "t": trial_id})
         trial = o_resume(trial_id=trial_id, new_config=new_config)
@@ -149,6 +162,7 @@ def run(kind, seed, n_workers, conf, criterion_kwargs, tuner_conf=None):
         return trial
 
     def fetch_status_results(trial_ids):
+        outside()
         st, res = o_fetch(trial_ids)
         out = []
         for t, r in res:
@@ -190,6 +204,7 @@ def run(kind, seed, n_workers, conf, criterion_kwargs, tuner_conf=None):
     be.busy_trial_ids = busy_trial_ids
 
     def pause_trial(trial_id, result=None):
+        outside()
         tl_ev.append({"a": "PauseTrial", "t": trial_id})
         o_pause(trial_id=trial_id, result=result)
         if mode.get(trial_id) == "running":
@@ -197,6 +212,7 @@ def run(kind, seed, n_workers, conf, criterion_kwargs, tuner_conf=None):
         mode[trial_id] = "paused"
 
     def stop_trial(trial_id, result=None):
+        outside()
         if not in_stop_all[0]:
             tl_ev.append({"a": "StopTrial", "t": trial_id})
         else:
